@@ -75,6 +75,14 @@ CLAIMS = {
                  'memoisation stored on the per-Script InferenceState, buffer parsed with cache=False. Equality with a fresh process is not decided.',
         'technique': 'store inventory (who-may-write) + CFG must/gate rules + decorator-storage classification (ast)',
     },
+    'C19': {
+        'level': 'Pruning and pre-filter, where a small edit silently leaks or loses files: the ignore table, slice-assignment pruning with '
+                 'all three exclusions before sub-folders are yielded, propagation into os.walk, files filtered by the same ignore sets in '
+                 'matching types and only after the folder\'s .gitignore was read, trailing-slash handling order in gitignored_paths, the '
+                 'regex pre-filter on decoded text, the three search steps and identity-based de-duplication. A genuine defect (files '
+                 'named in .gitignore were searched) was repaired. Completeness of hits is not decided.',
+        'technique': 'table equality + CFG order/must rules + dominating-fact (gate) checks (ast)',
+    },
     'C12': {
         'level': 'Whole-package inventory of code-execution sinks and host-state writers by resolved callee (every call site classified), '
                  'who-may-call on the one real importer chain, gate/flow on the safe-path filter of _load_builtin_module, undotted '
